@@ -49,6 +49,13 @@ const char *mname(int k) {
   return (k >= 0 && k <= M_EXC) ? n[k] : "?";
 }
 
+// restart pattern of process i (per-process since round 2; older replay files carry one pattern for all)
+std::string restart_of(const json &c, size_t i) {
+  const json &pc = c.at("procs")[i];
+  if (pc.contains("restart")) return pc.at("restart").get<std::string>();
+  return c.value("restart", std::string());
+}
+
 // ------------------------------------------------------------------ child side
 int c_out = -1, c_in = -1;
 int c_index = 0;
@@ -151,7 +158,7 @@ class Op : public xtp::QMThread {
     d.add_options()("file", po::value<std::string>())("cache", po::value<votca::Index>())("maxjobs", po::value<votca::Index>())(
         "restart", po::value<std::string>());
     std::vector<std::string> args{"--file", dir + "/lock", "--cache", std::to_string(int(pc.at("cache"))), "--maxjobs",
-                                  std::to_string(int(pc.at("maxjobs"))), "--restart", c.at("restart").get<std::string>()};
+                                  std::to_string(int(pc.at("maxjobs"))), "--restart", restart_of(c, size_t(index))};
     po::variables_map vm;
     po::store(po::command_line_parser(args).options(d).run(), vm);
     po::notify(vm);
@@ -346,9 +353,9 @@ std::string write_initial(const json &c, const std::string &dir) {
   return s;
 }
 
-std::set<long> restart_selected(const json &c) {
+std::set<long> restart_selected(const json &c, size_t proc) {
   // reference for the restart clause: AVAILABLE  U  {status named}  U  {host named}
-  std::string pat = c.at("restart");
+  std::string pat = restart_of(c, proc);
   std::set<std::string> stats, hosts;
   std::string cat, cur;
   std::string p2;
@@ -383,8 +390,8 @@ std::set<long> restart_selected(const json &c) {
 
 Result run_history(const json &c) {
   Result r;
-  {
-    std::string pat = c.at("restart");
+  for (size_t i = 0; i < c.at("procs").size(); ++i) {
+    std::string pat = restart_of(c, i);
     if (c.at("procs").size() > 1 && (pat.find("ASSIGNED") != std::string::npos || pat.find("COMPLETE") != std::string::npos)) {
       r.discard = true;  // outside the exactly-once clause, see gen_history
       return r;
@@ -647,7 +654,15 @@ Result run_history(const json &c) {
 
   // ---- verdict
   r.cls("procs=" + std::to_string(np));
-  if (!c.at("restart").get<std::string>().empty()) r.cls("restart");
+  {
+    bool any = false, differ = false;
+    for (size_t i = 0; i < np; ++i) {
+      if (!restart_of(c, i).empty()) any = true;
+      if (restart_of(c, i) != restart_of(c, 0)) differ = true;
+    }
+    if (any) r.cls("restart");
+    if (differ) r.cls("restart-patterns-differ");
+  }
   if (!c.at("crash").is_null()) r.cls("crash-planned");
   if (inconclusive) {
     cleanup();
@@ -698,15 +713,17 @@ Result run_history(const json &c) {
   kill_all(W);
   // ---- no crash: exactly-once and final file
   Parsed fin = scan_jobs(slurp(W.dir + "/jobs.xml"));
-  std::set<long> sel = restart_selected(c);
+  // may(J): AVAILABLE or named by the pattern of some process; must(J): ... of some process without a maxjobs cap
+  std::set<long> may, must;
   bool capped = false;
-  long capsum = 0;
-  for (auto &pc : c.at("procs")) {
-    if (int(pc.at("maxjobs")) >= 0) {
-      capped = true;
-      capsum += int(pc.at("maxjobs"));
-    } else
-      capsum += 1000000;
+  for (size_t i = 0; i < np; ++i) {
+    std::set<long> sel = restart_selected(c, i);
+    bool cap = int(c.at("procs")[i].at("maxjobs")) >= 0;
+    capped |= cap;
+    for (long id : sel) {
+      may.insert(id);
+      if (!cap) must.insert(id);
+    }
   }
   std::map<long, int> count;
   std::map<long, std::string> executor;
@@ -715,6 +732,8 @@ Result run_history(const json &c) {
     count[e[2]]++;
     executor[e[2]] = "p" + std::to_string(e[0]) + "t" + std::to_string(e[1]) + "j" + std::to_string(e[2]);
     per_proc[e[0]]++;
+    if (!restart_selected(c, size_t(e[0])).count(e[2]))
+      r.fail("C10/restart-selection", fmt("process %ld executed job %ld which is neither AVAILABLE nor named by that process's restart pattern", e[0], e[2]));
   }
   r.nontrivial = np >= 2 && overlap_attempt;
   if (overlap_attempt) r.cls("lock-contention");
@@ -722,7 +741,7 @@ Result run_history(const json &c) {
   if (nondefault) r.cls("nondefault-process-order");
   for (auto &kv : count) {
     if (kv.second > 1) r.fail("C10/job-executed-twice", fmt("job %ld was executed %d times", kv.first, kv.second));
-    if (!sel.count(kv.first)) r.fail("C10/unselected-job-executed", fmt("job %ld was neither AVAILABLE nor named by the restart pattern but was executed", kv.first));
+    if (!may.count(kv.first)) r.fail("C10/unselected-job-executed", fmt("job %ld was neither AVAILABLE nor named by a restart pattern but was executed", kv.first));
   }
   for (size_t i = 0; i < np; ++i) {
     int cap = c.at("procs")[i].at("maxjobs");
@@ -731,13 +750,9 @@ Result run_history(const json &c) {
   bool any_exc = false;
   for (auto &p : W.ps) any_exc |= p.exc;
   if (any_exc) r.fail("C10/worker-exception", "a worker process ended with an exception although nothing crashed");
-  if (!capped || capsum >= long(sel.size())) {
-    // note: with caps the processes that still have capacity may already have finished; only the uncapped case
-    // promises that every selected job runs
-    if (!capped)
-      for (long id : sel)
-        if (!count.count(id)) r.fail("C10/job-never-executed", fmt("job %ld was AVAILABLE / selected by the restart pattern but no worker executed it", id));
-  }
+  // a process without a cap walks the whole list, so every job it may take is executed by somebody
+  for (long id : must)
+    if (!count.count(id)) r.fail("C10/job-never-executed", fmt("job %ld was AVAILABLE / selected by the restart pattern of an uncapped process but no worker executed it", id));
   if (!fin.complete) {
     r.fail("C10/final-file-incomplete", "final job file is not a complete job list: " + fin.why);
   } else if (fin.jobs.size() != initial.jobs.size()) {
@@ -793,8 +808,17 @@ json gen_history() {
   c["procs"] = procs;
   // stat(ASSIGNED) re-opens, by its documented meaning, jobs that another live process is working on, so it is only
   // combined with a single worker process (where "exactly once" is still what the statement promises)
-  c["restart"] = np == 1 ? pick<std::string>({"", "stat(FAILED)", "host(old:1)", "host(old:1,old:2) stat(FAILED)", "stat(FAILED,ASSIGNED)"})
-                         : pick<std::string>({"", "", "stat(FAILED)", "host(old:1)", "host(old:1,old:2) stat(FAILED)", "host(old:3)"});
+  {
+    std::vector<std::string> multi{"", "", "stat(FAILED)", "host(old:1)", "host(old:1,old:2) stat(FAILED)", "host(old:3)"};
+    std::string common = pickv(multi);
+    bool same = rbool(50);
+    for (int i = 0; i < np; ++i) {
+      if (np == 1)
+        c["procs"][size_t(i)]["restart"] = pick<std::string>({"", "stat(FAILED)", "host(old:1)", "host(old:1,old:2) stat(FAILED)", "stat(FAILED,ASSIGNED)"});
+      else
+        c["procs"][size_t(i)]["restart"] = same ? common : pickv(multi);
+    }
+  }
   int plen = rcount(0, 60);
   std::vector<int> pch;
   for (int k = 0; k < plen; ++k) pch.push_back(ri(0, 5));
@@ -816,7 +840,6 @@ void enum_crash(int level, const std::function<bool(const json &)> &emit) {
     c["jobs"] = jobs;
     c["procs"] = json::array({{{"threads", 1 + variant % 2}, {"cache", 1}, {"maxjobs", -1}, {"choices", json::array()}},
                               {{"threads", 1}, {"cache", 2}, {"maxjobs", -1}, {"choices", json::array()}}});
-    c["restart"] = "";
     c["pchoices"] = std::vector<int>{1, 0, 1, 1, 0, 2, 1, 0};
     for (int wr = 1; wr <= 5; ++wr)
       for (int b = 0; b <= 70 + 150 * nj; ++b) {
